@@ -32,7 +32,7 @@ Fixpoint is_locked (fuel : nat) (h : heap) (n : nat) : option bool :=
     end
   end.
 
-(* ---- _lock_parents_weakrefs: stored list (TensorDict) / computed from the members minus self (lazy stack) -------- *)
+(* ---- _lock_parents_weakrefs: stored list (TensorDict) / the stack's own record plus its members' lists minus self (lazy stack) *)
 Fixpoint parents_of (fuel : nat) (h : heap) (n : nat) : option (list nat) :=
   match fuel with
   | 0 => None
@@ -42,7 +42,7 @@ Fixpoint parents_of (fuel : nat) (h : heap) (n : nat) : option (list nat) :=
     | Some nd =>
       match nk nd with
       | KTd => Some (pars nd)
-      | KLazy => option_map (filter (fun p => negb (Nat.eqb p n))) (opt_concat (parents_of f h) (node_children nd))
+      | KLazy => option_map (fun l => pars nd ++ filter (fun p => negb (Nat.eqb p n)) l) (opt_concat (parents_of f h) (node_children nd))
       end
     end
   end.
@@ -64,20 +64,18 @@ Fixpoint plock (fuel : nat) (h : heap) (n : nat) (ps : option (list nat)) : opti
         let h1 := upd h n (set_flag_pars nd FTrue pars') in
         fold_opt (fun h' c => plock f h' c (Some pass)) (node_children nd) h1
       | KLazy =>
+        (* the stack records the parents it is given (not yet present), and hands the whole list plus itself to its members *)
+        let own := match ps with None => pars nd | Some l => pars nd ++ filter (fun r => negb (memb r (pars nd))) l end in
         let pass := match ps with None => [n] | Some l => l ++ [n] end in
-        let h1 := upd h n (set_flag nd FTrue) in
+        let h1 := upd h n (set_flag_pars nd FTrue own) in
         fold_opt (fun h' c => plock f h' c (Some pass)) (node_children nd) h1
       end
     end
   end.
 
-(* lock_: `if self.is_locked: return self` then _propagate_lock() as a root *)
+(* lock_: `if self._is_locked: return self` (the stored flag, not the derived state of a lazy stack) then _propagate_lock() as a root *)
 Definition lock_ (fuel : nat) (h : heap) (n : nat) : option heap :=
-  match is_locked fuel h n with
-  | None => None
-  | Some true => Some h
-  | Some false => plock fuel h n None
-  end.
+  if flag_true h n then Some h else plock fuel h n None.
 
 (* ---- _propagate_unlock: clears the flags of the whole subtree, returns the sub-tensordicts (children first) ------- *)
 Fixpoint dict_set (d : list (nat * list nat)) (k : nat) (v : list nat) : list (nat * list nat) :=
@@ -126,10 +124,7 @@ Definition blocked (fuel : nat) (s : st) (n : nat) : option bool :=
 
 Definition clear_parents (h : heap) (n : nat) : heap :=
   match lookup h n with
-  | Some nd => match nk nd with
-               | KTd => upd h n (set_pars nd [])
-               | KLazy => h                     (* property without setter: AttributeError swallowed *)
-               end
+  | Some nd => upd h n (set_pars nd [])        (* TensorDict and lazy stack alike: the stored record is cleared *)
   | None => h
   end.
 
@@ -207,21 +202,16 @@ Inductive op :=
 | OClear (n : nat)                                 (* clear: lock_blocked *)
 | OPopitem (n : nat)                               (* popitem: lock_blocked; removes the last entry *)
 | OSelect (n : nat) (ks : list string)             (* select(ks.., inplace=True): guarded in _select *)
-| OExclude (n : nat) (ks : list string)            (* exclude(ks.., inplace=True): NOT guarded (D8) *)
+| OExclude (n : nat) (ks : list string)            (* exclude(ks.., inplace=True): guarded in _exclude *)
 | OAppend (l m : nat)                              (* LazyStackedTensorDict.append: lock_blocked on the derived state *)
 | OInsert (l i m : nat)                            (* LazyStackedTensorDict.insert *)
 | ONewLazy (ms : list nat)                         (* lazy_stack([...]) *)
 | ONewTd                                           (* TensorDict({}, bs) *)
-| OMemmap (n : nat)                                (* memmap_(): documented storage conversion; sets flags directly (D7) *)
+| OMemmap (n : nat)                                (* memmap_(): documented storage conversion; locks from the root afterwards *)
 | OShare (n : nat)                                 (* share_memory_() *)
 | OPickle (n : nat)                                (* pickle.loads(pickle.dumps(n)) *)
 | OMakeMemmap (n : nat) (k : string)               (* make_memmap: documented exception, adds an entry under lock *)
 | OGc (ds : list nat).                             (* the objects ds were collected *)
-
-(* D8 switch: the suggested fix adds `if inplace and self.is_locked: raise` to _exclude *)
-Definition fixed_D8 : bool := false.
-(* D7 switch: the suggested fix drops `dest._is_locked = True` from _memmap_ so that lock_() builds the graph *)
-Definition fixed_D7 : bool := false.
 
 Definition resolve_value (s : st) (v : value) : option (st * ref) :=
   match v with
@@ -276,11 +266,7 @@ Fixpoint pmemmap (fuel : nat) (s : st) (n : nat) : option (st * bool) :=
                    end) (ents nd) (s1, false) with
           | None => None
           | Some (s2, true) => Some (s2, true)
-          | Some (s2, false) =>
-              match lookup (hp s2) n with
-              | Some nd2 => Some (with_hp s2 (upd (hp s2) n (if fixed_D7 then nd2 else set_flag nd2 FTrue)), false)   (* dest._is_locked = True *)
-              | None => Some (s2, false)
-              end
+          | Some (s2, false) => Some (s2, false)     (* the lock is registered from the root once the whole tree is converted *)
           end
       | KLazy =>
         fold_opt (fun (acc : st * bool) c => if snd acc then Some acc else pmemmap f (fst acc) c) (node_children nd) (s, false)
@@ -475,7 +461,7 @@ Definition step (fuel : nat) (s : st) (o : op) : option (st * outcome) :=
       end
   | OExclude n ks =>
       if negb (is_td s n) then Some (s, Invalid) else
-      if fixed_D8 && td_flag s n then Some (s, Raised ELock) else      (* unchanged code: no guard at all *)
+      if td_flag s n then Some (s, Raised ELock) else          (* _exclude: `if inplace and self.is_locked: raise` *)
       match lookup (hp s) n with
       | None => Some (s, Invalid)
       | Some nd => Some (set_node_ents s n (fold_left ents_del ks (ents nd)), Done)
@@ -512,7 +498,8 @@ Definition step (fuel : nat) (s : st) (o : op) : option (st * outcome) :=
       match pmemmap fuel s n with
       | None => None
       | Some (s1, true) => Some (s1, Raised EOther)
-      | Some (s1, false) => match lock_ fuel (hp s1) n with Some h => Some (with_hp s1 h, Done) | None => None end
+      | Some (s1, false) =>      (* _lock_graph: _propagate_lock() from the root, whatever the flags *)
+          match plock fuel (hp s1) n None with Some h => Some (with_hp s1 h, Done) | None => None end
       end
   | OShare n =>
       if negb (exists_live s n) then Some (s, Invalid) else
